@@ -261,3 +261,22 @@ PROPS["C09"] = {
             "distinct by the whole case.",
     "assumptions": COMMON_ASSUMPTIONS + ["requested width and height are >= 1"],
 }
+
+FAMS = ("qr", "datamatrix", "aztec", "pdf417", "code128", "code128nc", "code39", "code93", "codabar", "ean", "2of5", "itf")
+
+PROPS["C11"] = {
+    "technique": "differential/metamorphic property testing: each generated encoder call is made plain and WithColor; pixels, ColorModel, ColorScheme, Metadata, Content and the module pattern are compared with the scheme in force and with each other; sizes validated by the reference readers",
+    "level_text": "exploration: for all 12 entry-point families x plain/WithColor x schemes over Gray, Gray16, RGBA, NRGBA, CMYK and the four predefined ones: bounds start at (0,0), every pixel is exactly the scheme's foreground or background (interface equality), ColorModel/ColorScheme report the scheme in force (ColorScheme16 for plain), the boolean module pattern is identical between plain and coloured, the pattern is a well-formed symbol of a standard size for its family (reference reader), Metadata kind/dimensions and Content are as documented (EAN completed, Code 39/93 full-ASCII as a basic-alphabet spelling)",
+    "level_note": RT_NOTE,
+    "parts": [
+        {"name": "regression", "kind": "plain", "test": "TestReplayDir"},
+        {"name": "sweep", "kind": "plain", "test": "TestC11Sweep"},
+        {"name": "rapid", "kind": "rapid", "test": "TestC11Rapid", "checks": {"quick": 40000, "thorough": 1500000}},
+    ],
+    "universes": {"family_x_scheme": [f"{f} {c}" for f in FAMS for c in ("plain", "colour")],
+                  "family_x_model": [f"{f} {m}" for f in FAMS for m in ("gray", "gray16", "rgba", "nrgba", "cmyk", "predefined1", "predefined2", "predefined3", "predefined4")]},
+    "rule": "case = one encoder call (family, content from the family's C01-C08 generator in small/medium/any size, parameters) with, in 4 of 5 cases, a colour scheme "
+            "(predefined 1..4 or random distinct fore/background in Gray/Gray16/RGBA/NRGBA/CMYK); sweep = 18 fixed calls x 14 schemes + every QR version class, "
+            "DataMatrix size, Aztec layer request and PDF417 size class with a coloured scheme. Non-trivial = accepted and coloured; distinct by (call, scheme).",
+    "assumptions": COMMON_ASSUMPTIONS,
+}
